@@ -787,7 +787,7 @@ package badger
 //@   assert[readonly-guard-create] before call helpRewrite : !readOnly
 //@   assert[truncated-at-replay-offset] before call Truncate : arg0 == ret0(OpenExistingFile#1) && arg1 == ret1(ReplayManifestFile#1) && ret2(ReplayManifestFile#1) == nil
 //@   assert[replay-of-the-opened-file] before call ReplayManifestFile : arg0 == ret0(OpenExistingFile#1) && arg1 == extMagic
-//@   assert[appends-go-to-the-end] before call Seek : arg1 == 0 && arg2 == io.SeekEnd
+//@   assert[appends-go-to-the-end] before call Seek : arg1 == 0 && arg2 == io.SeekEnd && (readOnly || called(Truncate#1))
 
 //@ func createDirs
 //@   props C07
@@ -961,6 +961,8 @@ package badger
 //@   assert[checksum-matches-before-decode] before call Unmarshal : called(Checksum#1) && ret(Checksum#1) == ret(BytesToU32#2) && arg0 == buf
 //@   assert[decoded-before-applied] before call applyChangeSet : called(Unmarshal#1) && ret(Unmarshal#1) == nil
 //@   assert[truncate-at-last-complete-record] before return#12 : result2 == nil && result1 == offset
+//@   assert[short-header-is-a-torn-tail] before return#6 : ret1(ReadFull#2) != io.EOF && ret1(ReadFull#2) != io.ErrUnexpectedEOF && result2 == ret1(ReadFull#2)
+//@   assert[short-payload-is-a-torn-tail] before return#8 : ret1(ReadFull#3) != io.EOF && ret1(ReadFull#3) != io.ErrUnexpectedEOF && result2 == ret1(ReadFull#3)
 
 // addChanges: the change set given is the one marshalled, applied to the in-memory manifest
 // (under the append lock) and written; it is written (length, checksum of the payload, payload)
